@@ -238,7 +238,22 @@ func genDesc(r *vh.Rng, fn string, fi *fmtInfo, valid bool) *Desc {
 			}
 		}
 	case "Ds":
-		d.N["offset0"], d.N["offset1"] = edge(r, 8), edge(r, 8)
+		if r.Intn(3) == 0 { // the dual-offset families, which the shipped kernels hardly use
+			var dual []rowInfo
+			for _, x := range fi.rows {
+				if dsDualOffset(x.op) {
+					dual = append(dual, x)
+				}
+			}
+			if len(dual) > 0 {
+				row = dual[r.Intn(len(dual))]
+				d.Op = row.op
+			}
+		}
+		d.N["offset0"], d.N["offset1"] = edge(r, 8), 1+int64(r.Intn(255))
+		if r.Intn(4) == 0 {
+			d.N["offset1"] = 0
+		}
 		d.B["gds"] = r.Bool()
 		d.N["addr"], d.N["data0"], d.N["data1"], d.N["vdst"] = edge(r, 8), edge(r, 8), edge(r, 8), edge(r, 8)
 	case "Flat":
@@ -284,6 +299,17 @@ func opndMatches(want *Opnd, got *insts.Operand, lit *uint32) string {
 		}
 	}
 	return ""
+}
+
+// dsDualOffset: DS opcodes with two separate 8-bit offsets (GCN3 ISA, LDS/GDS
+// instruction table): ds_write2[st64]_b32/b64, ds_wrxchg2[st64]_rtn_b32/b64,
+// ds_read2[st64]_b32/b64.
+func dsDualOffset(op int) bool {
+	switch op {
+	case 14, 15, 46, 47, 55, 56, 78, 79, 110, 111, 119, 120:
+		return true
+	}
+	return false
 }
 
 func vgprIs(got *insts.Operand, idx int64) bool {
@@ -426,8 +452,15 @@ func roundTrip(d *Desc, fi *fmtInfo, i *insts.Inst) string {
 		if i.SRC0Width > 0 && !vgprIs(i.Data, n("data0")) || i.SRC1Width > 0 && !vgprIs(i.Data1, n("data1")) || i.DSTWidth > 0 && !vgprIs(i.Dst, n("vdst")) {
 			add("data0/data1/vdst differ")
 		}
-		if i.Offset1 != uint32(n("offset1")) || (i.Offset0 != uint32(n("offset0")) && i.Offset0 != uint32(n("offset0")+n("offset1")<<8)) {
-			add("offsets differ")
+		// ISA: the read2/write2/wrxchg2 families (incl. st64) address two locations
+		// with two 8-bit offsets; every other DS instruction has one 16-bit offset
+		// offset1:offset0
+		wantOff0 := uint32(n("offset0") + n("offset1")<<8)
+		if dsDualOffset(d.Op) {
+			wantOff0 = uint32(n("offset0"))
+		}
+		if i.Offset1 != uint32(n("offset1")) || i.Offset0 != wantOff0 {
+			add(fmt.Sprintf("offsets differ: offset0:%d offset1:%d decoded as Offset0 %d Offset1 %d", n("offset0"), n("offset1"), i.Offset0, i.Offset1))
 		}
 	case "Flat":
 		if i.GlobalLevelCoherent != d.B["glc"] || i.SystemLevelCoherent != d.B["slc"] || i.TextureFailEnable != d.B["tfe"] {
@@ -577,25 +610,6 @@ func (e *env) wordCase(kind string, cdna3 bool, buf []byte, d *Desc, valid bool,
 	return c
 }
 
-// doubleCounted recognises the one known mis-sizing class (proposed known
-// finding): the literal dword is counted once per field that refers to it.
-func doubleCounted(buf []byte) bool {
-	if len(buf) < 4 {
-		return false
-	}
-	w := binary.LittleEndian.Uint32(buf)
-	switch {
-	case w>>23 == 0x17d || w>>23 == 0x17f: // SOP1, SOPP
-		return false
-	case w>>23 == 0x17e, w>>30 == 2 && w>>28 != 0xb: // SOPC, SOP2
-		return w&0xff == 0xff && (w>>8)&0xff == 0xff
-	case w>>31 == 0 && w>>25 != 0x3e && w>>25 != 0x3f: // VOP2
-		op := int(w >> 25 & 0x3f)
-		return isMadk(op) && (w&0x1ff == 0xff || w&0x1ff == 0xf9)
-	}
-	return false
-}
-
 func main() {
 	seed := flag.Uint64("seed", 1, "seed")
 	n := flag.Int("n", 1000, "number of generated word cases")
@@ -668,9 +682,6 @@ func main() {
 				if !valid {
 					kind = "hostile"
 				}
-				if doubleCounted(buf) {
-					continue
-				}
 				c = e.wordCase(kind, cdna3, buf, d, valid, fis, r)
 			case 2: // truncated encodings
 				fn := descNames[r.Intn(len(descNames))]
@@ -684,9 +695,6 @@ func main() {
 				buf := make([]byte, 4*(1+r.Intn(3)))
 				for i := range buf {
 					buf[i] = byte(r.U64())
-				}
-				if doubleCounted(buf) {
-					continue
 				}
 				c = e.wordCase("rand", cdna3, buf, nil, false, fis, r)
 			case 4: // random fields under a real format encoding and a real opcode
@@ -706,9 +714,6 @@ func main() {
 				if r.Intn(5) != 0 {
 					buf = append(buf, insts.Uint32ToBytes(uint32(r.U64()))...)
 				}
-				if doubleCounted(buf) {
-					continue
-				}
 				c = e.wordCase("guided", cdna3, buf, nil, false, fis, r)
 			case 5: // bit flips of a valid encoding
 				if len(lastValid) == 0 {
@@ -718,9 +723,6 @@ func main() {
 				for x := 1 + r.Intn(3); x > 0; x-- {
 					b := r.Intn(8 * len(buf))
 					buf[b/8] ^= 1 << uint(b%8)
-				}
-				if doubleCounted(buf) {
-					continue
 				}
 				c = e.wordCase("mut", cdna3, buf, nil, false, fis, r)
 			case 6: // short buffers
